@@ -28,6 +28,9 @@ ASSUMPTIONS = ['IFS with an odd number of arguments and text conditions are not 
 COND_CELLS = ['A1', 'A2', 'A3', 'A4']
 ERR_CELL = 'E1'       # holds #N/A
 TEXT_CELL = 'E2'      # holds "hello"
+RAISING_CELL = 'E3'   # holds =1/0: reading the cell fails
+HASH_TEXT_CELL = 'E4' # holds "#FF0000": a text, not one of Excel's error values
+EXCEL_ERRORS = ('#N/A', '#DIV/0!', '#VALUE!', '#REF!', '#NAME?', '#NUM!', '#NULL!')
 ASSIGN_VALUES = [1, 0, None, 5]   # None = leave blank (no override)
 
 
@@ -45,7 +48,7 @@ FAIL_CALLS = [['call', 'YEAR', [['ref', TEXT_CELL]]],
 
 
 def is_fail(node):
-    return (node[0] == 'bin' and node[1] == '/' and node[3] == ['num', '0']) or node == ['ref', ERR_CELL] or node in FAIL_CALLS
+    return (node[0] == 'bin' and node[1] == '/' and node[3] == ['num', '0']) or node in (['ref', ERR_CELL], ['ref', RAISING_CELL]) or node in FAIL_CALLS
 
 
 def nest_depth(ast):
@@ -121,8 +124,10 @@ def make_env(assign, base_cells):
             v = None
         if v is None:
             return F.BLANK
-        if isinstance(v, str) and v.startswith('#'):
+        if isinstance(v, str) and v in EXCEL_ERRORS:
             return F.Err(v)
+        if v == '=1/0':
+            raise F._ErrSignal(F.Err('#DIV/0!'))
         return v
     return envf
 
@@ -163,7 +168,7 @@ def untaken_differs(ast, envf, value, seen):
     return False
 
 
-BASE_CELLS = {ERR_CELL: '#N/A', TEXT_CELL: 'hello'}
+BASE_CELLS = {ERR_CELL: '#N/A', TEXT_CELL: 'hello', RAISING_CELL: '=1/0', HASH_TEXT_CELL: '#FF0000'}
 
 
 def run_spec(spec, rec=None):
@@ -261,9 +266,12 @@ def strategy():
                      st.tuples(st.sampled_from(['>', '=', '<>', '>=']), ref, st.sampled_from(['0', '1'])).map(
                          lambda t: ['bin', t[0], t[1], ['num', t[2]]]),
                      st.sampled_from([['num', '0'], ['num', '1'], ['num', '2'], ['bool', True], ['bool', False]]))
-    fail = st.sampled_from([['bin', '/', ['num', '1'], ['num', '0']], ['ref', ERR_CELL]] * 2 + FAIL_CALLS)
+    fail = st.sampled_from([['bin', '/', ['num', '1'], ['num', '0']], ['ref', ERR_CELL], ['ref', RAISING_CELL]] * 2 + FAIL_CALLS)
+    # a condition whose evaluation fails (it must not be touched once an earlier condition has decided)
+    failcond = st.sampled_from([['bin', '>', ['bin', '/', ['num', '10'], ['num', '0']], ['num', '1']], ['bin', '>', ['ref', RAISING_CELL], ['num', '0']],
+                                ['bin', '=', ['call', 'YEAR', [['ref', TEXT_CELL]]], ['num', '1']]])
     number = st.integers(2, 99).map(lambda n: ['num', str(n)])
-    leafval = st.one_of(number, number, number, fail, ref, st.sampled_from([['str', 'yes'], ['str', 'no']]))
+    leafval = st.one_of(number, number, number, fail, ref, st.sampled_from([['str', 'yes'], ['str', 'no'], ['str', '#FF0000'], ['str', '#7'], ['ref', HASH_TEXT_CELL]]))
 
     def nest(child):
         pair = st.tuples(cond, child)
@@ -272,6 +280,7 @@ def strategy():
             st.tuples(cond, child, child).map(lambda t: ['call', 'IF', list(t)]),
             st.tuples(cond, child).map(lambda t: ['call', 'IF', list(t)]),
             st.lists(pair, min_size=1, max_size=3).map(lambda ps: ['call', 'IFS', [x for p in ps for x in p]]),
+            st.tuples(st.lists(pair, min_size=1, max_size=2), failcond, child).map(lambda t: ['call', 'IFS', [x for p in t[0] for x in p] + [t[1], t[2]]]),
             st.tuples(st.one_of(child, fail), child).map(lambda t: ['call', 'IFERROR', list(t)]))
     d1 = nest(leafval)
     d2 = nest(st.one_of(leafval, d1))
